@@ -112,6 +112,9 @@ func cfgRun(r *mc.Report, c cfgCase, oracle func(c cfgCase, e *Env, m *Model) []
 	}
 }
 
+// c07AllTargets4: (thorough) every per-service form assignment also for 4 services.
+var c07AllTargets4 bool
+
 func c07Enumerate(r *mc.Report, n int, shard, nshards int) {
 	if r.Only != nil {
 		var c cfgCase
@@ -121,7 +124,7 @@ func c07Enumerate(r *mc.Report, n int, shard, nshards int) {
 		return
 	}
 	var targets [][]string
-	if n <= 3 {
+	if n <= 3 || c07AllTargets4 {
 		targets = allTargets(n, []string{"plain", "keyed", "group"})
 	} else {
 		for _, f := range []string{"plain", "keyed", "group"} {
@@ -179,9 +182,14 @@ func init() {
 				sh := sh
 				jobs = append(jobs, mc.Job{Name: fmt.Sprintf("c07-n3#%d", sh), Weight: 5, Run: func(r *mc.Report) { c07Enumerate(r, 3, sh, 4) }})
 			}
-			for sh := 0; sh < 12; sh++ {
+			c07AllTargets4 = tier == "thorough"
+			n4 := 12
+			if tier == "thorough" {
+				n4 = 64
+			}
+			for sh := 0; sh < n4; sh++ {
 				sh := sh
-				jobs = append(jobs, mc.Job{Name: fmt.Sprintf("c07-n4#%d", sh), Weight: 10, Run: func(r *mc.Report) { c07Enumerate(r, 4, sh, 12) }})
+				jobs = append(jobs, mc.Job{Name: fmt.Sprintf("c07-n4#%d", sh), Weight: 10, Run: func(r *mc.Report) { c07Enumerate(r, 4, sh, n4) }})
 			}
 			jobs = append(jobs, rbJobs("C07", depth4(tier)+1)...)
 			return jobs
